@@ -31,6 +31,23 @@ findings.append(dict(
          'returns flags (pressure_increasing_test([1, None, 3]) raises; [1, nan, 3] -> [1,1,1]).',
     why_not_fixed='adding the normalisation the other tests use would also change how NaN values are flagged; left to the maintainers.'))
 
+findings.append(dict(
+    property='C07', rule='C07.calls', key='Config:parameterless:stream-mapping:missing', status='known',
+    what="Config({'pres': {'argo': {'pressure_increasing_test': None}}}) - a bare stream-id mapping whose only test has no parameters (the natural YAML "
+         "spelling 'pressure_increasing_test:' ) - is three levels deep, so the dict_depth(...) >= 4 heuristic reads it as a module mapping: no call is "
+         "produced and a warning about package 'pres' is logged. The same configuration with 'streams:' or 'contexts:' works.",
+    why_not_fixed='the depth heuristic needs a different discriminator (e.g. looking the keys up as modules); not a one-line repair.'))
+
+XR = 'XarrayStream.run selects the window with ds[var].sel(time=slice(starting, ending)): an xarray label slice is closed on both ends, and the selection is only made when both bounds are given.'
+for key, what in (
+    ('xarray:both:wrong-rows', 'a row whose time equals `ending` is evaluated although the window is starting <= t < ending (e.g. window [t1, t3) evaluates rows 1,2,3).'),
+    ('xarray:starting-only:wrong-rows', 'a window with only `starting` is ignored: every row is evaluated.'),
+    ('xarray:ending-only:wrong-rows', 'a window with only `ending` is ignored: every row is evaluated.'),
+    ('xarray:unexpected-results', 'consequently the results carry row masks that no configured window accounts for (same construct).'),
+):
+    findings.append(dict(property='C05', rule='C05.extra' if key.endswith('results') else 'C05.rows', key=key, status='known',
+                         what=XR + ' ' + what, why_not_fixed='needs a redesign of the label-to-index reconstruction in XarrayStream.run (half-open interval, open bounds); not a small patch.'))
+
 fixed = [
     'fixed: property=C09 968352c spike_test ignored suspect_threshold=0 / fail_threshold=0 (truthiness gates); also the C16 clause "a threshold given as zero"',
     'fixed: property=C10 cee7a58 rate_of_change_test accepted inp / tinp of different lengths (silent broadcast) instead of raising ValueError',
@@ -41,6 +58,9 @@ fixed = [
     'fixed: property=C01 1ed3f57 attenuated_signal_test raised ValueError (np.ptp) on an empty series with check_type="range"',
     'fixed: property=C15 1740007 mapdates raised AttributeError for a timezone-aware DatetimeIndex',
     'fixed: property=C15 d3c2242 valid_range_test raised AttributeError for list / tuple input (inp.shape)',
+    'fixed: property=C05 a4cbbbd NumpyStream / NetcdfStream / QcConfig.run raised ValueError (reshape) for every window that excludes a row',
+    'fixed: property=C05 c7a882d NumpyStream / NetcdfStream with the documented dict input and a time axis raised ValueError (0-d row mask) when no window was configured',
+    'fixed: property=C05 74329b5 PandasStream raised IndexError / marked wrong rows for a DataFrame whose index is not 0..n-1 (iloc with labels)',
 ]
 
 (ROOT / 'known_findings.json').write_text(json.dumps(dict(
